@@ -1198,6 +1198,12 @@ def store(
     arrays = []
     for s, t, r in zip(sources, targets, regions_list):
         slices = ArraySliceDep(s.chunks)
+        # A target is a mutable sink: name the store after its identity, not
+        # its current content, or equal sources stored into distinct targets
+        # that happen to hold equal data collapse into a single write
+        token = tokenize(
+            s, t if isinstance(t, Delayed) else id(t), r, lock, return_stored, load_stored
+        )
         arrays.append(
             s.map_blocks(
                 load_store_chunk,  # type: ignore[arg-type]
@@ -1208,7 +1214,7 @@ def store(
                 lock=lock,
                 return_stored=return_stored,
                 load_stored=load_stored,
-                token="store-map",
+                name=f"store-map-{token}",
                 meta=s._meta,
             )
         )
